@@ -148,6 +148,25 @@ pub fn run(a: &Args) -> i32 {
     if prop == "C02" {
         collision_pass(&w, &sink, &mut rep);
     }
+    if prop == "C04" || prop == "C12" {
+        // deep graph DFS: paths of hundreds of plies on one board, every prefix undone in reverse
+        use rayon::prelude::*;
+        let max_states = if a.tier == "thorough" { 400_000 } else { 40_000 };
+        let res: Vec<(u64, u64, u64, u64)> = DEEP_SEEDS.par_iter().map(|(n, f)| deep_paths(prop, n, f, 250, max_states, prop == "C04", prop == "C12", &sink)).collect();
+        let mut longest = 0;
+        for (st, tr, lg, un) in res {
+            rep.states += st;
+            rep.transitions += tr;
+            rep.traces += 1;
+            rep.add("deep_path_states", st);
+            rep.add("deep_path_undo_comparisons", un);
+            longest = longest.max(lg);
+        }
+        rep.counters.insert("deep_path_longest_plies".into(), longest);
+        rep.mandatory.push("deep_path_states".into());
+        rep.samples.push(json!({"deep_graph_dfs": DEEP_SEEDS.iter().map(|s| s.0).collect::<Vec<_>>(), "path_cap": 250, "state_cap_per_seed": max_states, "longest_path": longest}));
+        rep.notes.push(format!("deep graph DFS: bounded to the first {} canonical states per seed in depth-first order and to paths of 250 plies (a stated bound, not full coverage of those graphs)", max_states));
+    }
     if prop == "C05" {
         c05_constants(&sink, &mut rep);
         c05_setup_orders(&sink, &mut rep);
